@@ -120,9 +120,16 @@ pub fn gen_case(rng: &mut Rng, family: &str, profile: &str, size: usize) -> Stri
             gnp_request(n, pnum, pden, directed, rng.below(100000))
         }
         "gnpstat" => {
-            let (n, count) = *rng.pick(&[(6i64, 600u64), (10, 400), (25, 300), (60, 150), (120, 60)]);
-            let pnum = *rng.pick(&[5i64, 10, 30, 50, 70, 90]);
-            format!("gnpstat {} {} 100 {} {} {}", n, pnum, rng.below(2), rng.below(1_000_000), count)
+            // ordinary probabilities, and probabilities so small that the expected number of edges is a few or (almost) none
+            if rng.chance(60) {
+                let (n, count) = *rng.pick(&[(6i64, 600u64), (10, 400), (25, 300), (60, 150), (120, 60)]);
+                let pnum = *rng.pick(&[5i64, 10, 30, 50, 70, 90]);
+                format!("gnpstat {} {} 100 {} {} {}", n, pnum, rng.below(2), rng.below(1_000_000), count)
+            } else {
+                let (n, pnum, pden, count) = *rng.pick(&[(20i64, 4i64, 1000u64, 400u64), (10, 1, 1_000_000, 300), (2, 1, 1_000_000, 300), (30, 1, 1000, 300),
+                                                          (8, 1, 100, 500), (50, 1, 100_000_000_000_000_000, 100), (3, 5, 1000, 500)]);
+                format!("gnpstat {} {} {} {} {} {}", n, pnum, pden, rng.below(2), rng.below(1_000_000), count)
+            }
         }
         _ => panic!("unknown generator family"),
     }
